@@ -10,4 +10,14 @@ trap 'git -C /repo checkout -- . ; git -C /repo clean -fdq -- . 2>/dev/null' EXI
 for P in "$@"; do
   out=$(./check $P --tier $TIER 2>&1); rc=$?
   echo "== $P rc=$rc"; echo "$out" | grep -E "VIOLATION|KNOWN-FINDING|\[check\]" | cut -c1-300
+  rp=$(echo "$out" | grep -oE "replay=[^ ]+" | head -1 | cut -d= -f2)
+  if [ -n "$rp" ] && [ -f "$rp" ]; then
+    python3 - "$rp" <<'PY'
+import json,sys
+d=json.load(open(sys.argv[1]))
+print("REPLAY op:", str(d.get("op"))[:300])
+print("REPLAY verdict:", str(d.get("verdict"))[:300])
+for b in (d.get("broken") or [])[:3]: print("REPLAY broken:", b[:300])
+PY
+  fi
 done
